@@ -30,9 +30,10 @@ suite green (288/288):
   `tools/seedtest.sh` (patch applies to a clean checkout, demo passes/fails as
   claimed, pinned suite still 288/288) before keeping it.
 
-Across the six rounds 66 of the 120 seeded changes were caught on first contact (11, 12, 10, 10, 13, 10 of 20), the
-other 54 pointed at generator or oracle gaps that were then closed - each table below says which - and five of them led to
-genuine defects of the unchanged tree (fixed, §5.1).
+Across the seven rounds 77 of the 140 seeded changes were caught on first contact (11, 12, 10, 10, 13, 10, 11 of 20), the
+other 63 pointed at generator or oracle gaps that were then closed - each table below says which - and eight of the
+strengthenings exposed genuine defects of the unchanged tree (fixed, §5.1: C18 x2, C08 x2, C04, C15, C11, and the C08 bignum
+one that a seeding agent pointed out as a side observation).
 
 First contact with the first 20 seeded changes (quick tier, before any strengthening):
 11 caught at once (C01 C03 C05 C07 C08 C09 C12 C15 C16 C17 C19), 8 missed
@@ -131,6 +132,22 @@ violation instead of a harness error), 10 missed:
 | C17f | client factory ignores `autoPingRestartOnAnyTraffic=False` | with that option off the peer always answered with pongs | peer answers with data only while the connection is configured so that only pongs count: must be dropped |
 | C19f | `check_totp` normalises the ticket through `int()`: altered tickets verify | only whole wrong codes were tried | every single-bit alteration and several re-spellings of a genuine ticket |
 | C20f | callee encrypts progressive YIELDs with the originator box: in clear with a responder-only keyring | the callee never produced progressive results | the endpoint emits a progressive result; the progressive YIELD must be encrypted and free of the marker |
+
+A **seventh round** (`seeded/<ID>g/`; six earlier summaries given; asked for untouched files - asyncio flavour, util / types / role
+helpers, option plumbing - or bugs that need two conditions at once) - first contact, quick tier, replays off: 11 caught at once
+(C01g C02g C05g C09g C11g C12g C14g C15g C16g C18g C19g), 9 missed:
+
+| prop | seeded change needs | gap in my check | strengthening |
+|---|---|---|---|
+| C03g | UBJSON encoder called with `no_float32=False`: payload doubles come back rounded to single precision | payload floats were not generated at all (I had declared them outside the statement) | finite doubles of magnitude 0 or >= 2.3e-308 are part of every generated payload (all WAMP checks share the strategy); they must come back as the same float. Below that the bjdata encoder switches to Decimal on the unchanged tree: stated as assumption, not generated |
+| C04g | `CallOptions(caller_authrole=...)` without `caller_authid` is dropped from the CALL | only on_progress / timeout / details were ever set | every wire option of CallOptions, PublishOptions, SubscribeOptions and RegisterOptions (transaction_hash, caller*, forward_for, get_retained, concurrency, force_reregister, all five invoke policies) is drawn independently; each must be on the request message exactly as given, absent ones absent. The wider option space thinned out the histories with two outstanding progressive calls (own mutant m6 slipped), so those are now also enumerated (`progress_grid`: 2-3 calls x handler subsets x every order of progressive results x 2 final orders, 192 histories per framework) |
+| C06g | a router GOODBYE with reason `wamp.close.goodbye_and_out` is not answered although this side did not initiate | the router's reason URI was fixed per situation | reason URI (six, including goodbye_and_out and an error URI) and message are drawn per history; the answer depends only on who initiated |
+| C07g | allow-list patterns folded into one alternation regex: every entry but the last matches as a prefix | only one configured allow-list had two entries, and near-miss origins were a fixed list | allow-lists of 2-4 entries drawn from a pool in any order; origins constructed from each configured entry (exact, port extended / truncated, host extended left / right, other scheme, no port) |
+| C08g | ABORT whose `message` detail is a falsy non-string (false, 0, [], {} ...) is accepted, value dropped | a wrongly typed option only counted when the parsed message *retained* it | a message carrying a wrongly typed known option at the options position is a violation when accepted at all (options read only in payload form are judged only in that form). Adding huge integers to the junk values (the agent's side observation) exposed the genuine bignum defect (fixed, §5.1) |
+| C10g | `register(obj)`: the decorated method of an object that evaluates false (empty container) is invoked without self | endpoints were plain functions | each procedure is registered as plain callable, bound method, or through `register(obj)` with a decorated method of a normal / empty-container / `__bool__`-false object; the method must receive exactly that object as self. The same variation for `subscribe(obj)` in C11 failed on the *unchanged* tree: genuine defect (fixed, §5.1) |
+| C13g | Twisted RawSocket: when `onOpen` raises after the session took the transport, the session is never told the transport is gone | for a failing onOpen I had accepted 0 or 1 `onClose` calls | exactly one (every transport and role does that on the unchanged tree) |
+| C17g | opening-handshake timeout ignored while a client waits for its HTTP proxy's CONNECT answer | no client went through an explicit proxy | client "open" scenarios with a configured proxy: proxy silent, proxy answers and server silent, both answer (early / at / after the deadline) |
+| C20g | encrypted EVENT decoded once per event: with two handlers on one subscription the second one runs with a payload whose embedded URI does not match | one handler per subscription | 1-3 handlers per subscription: all of them get the genuine payload, none of them any forged / swapped / superseded one |
 
 Round 4 also produced two mutants that do not terminate (C15d on the receive path, C02d under interleaving): a check
 that hangs is useless, so every case / machine step / enumeration block now runs under a CPU-time guard (150 s of CPU of
